@@ -10,6 +10,7 @@ open Pcore.Reflect
 #print axioms C18_roundtrip_unsigned_wraps
 #print axioms C18_map_any_order
 #print axioms C18_struct
+#print axioms C18_defaults_restored
 #print axioms C18_nil_slice_becomes_empty
 #print axioms C18_nil_map_becomes_empty
 #print axioms C18_ptr_to_nil_collapses
